@@ -114,8 +114,8 @@ var c17Kinds = func() []string {
 }()
 
 // small pools so that several ops touch the same element / attribute / property
-var c17Opts = &SpecOpts{ElPool: []string{"a", "b", "p", "div", "span", "img", "title", "object", "my-x", "iframe", "script", "td"},
-	AtPool: []string{"href", "src", "id", "class", "title", "rel", "style", "align", "sandbox", "data-x"}}
+var c17Opts = &SpecOpts{ElPool: []string{"a", "b", "p", "div", "span", "img", "title", "object", "my-x", "iframe", "script", "td", "quiz"},
+	AtPool: []string{"href", "src", "id", "class", "title", "rel", "style", "align", "sandbox", "data-x", "size"}}
 
 func genC17(t *rapid.T) *Case {
 	c := &Case{}
